@@ -7,11 +7,6 @@ import InToto.Meta
 -/
 namespace InToto
 
-inductive Piece where
-  | text (s : Str)
-  | field (name : Str)
-  deriving Repr, DecidableEq
-
 /-- Read a replacement field's name up to the closing `}`. -/
 def readField : Str → Str → Except Err (Str × Str)
   | [], _ => .error .value                                   -- expected '}' before end of string
@@ -21,40 +16,38 @@ def readField : Str → Str → Except Err (Str × Str)
     if c = '!' ∨ c = ':' ∨ c = '.' ∨ c = '[' then .error .other   -- outside the modelled subset
     else readField rest (c :: acc)
 
-/-- Split a template into literal text and replacement fields. -/
-def parseTemplate : Nat → Str → Str → Except Err (List Piece)
-  | 0, _, _ => .error .other
-  | _, [], acc => .ok (if acc = [] then [] else [.text acc.reverse])
-  | fuel + 1, '{' :: '{' :: rest, acc => parseTemplate fuel rest ('{' :: acc)
-  | fuel + 1, '}' :: '}' :: rest, acc => parseTemplate fuel rest ('}' :: acc)
-  | _, '}' :: _, _ => .error .value                          -- Single '}' encountered
-  | fuel + 1, '{' :: rest, acc =>
+def isDigits (s : Str) : Bool := s.all (fun c => '0' ≤ c ∧ c ≤ '9')
+
+/-- The value a replacement field stands for. -/
+def lookupField (params : Dict Str Str) (name : Str) : Except Err Str :=
+  if isDigits name then .error .indexError      -- positional / auto-numbered field, no positional args
+  else
+    match Dict.get? params name with
+    | none => .error .keyError
+    | some v => .ok v
+
+/-- `template.format(**params)` on the modelled subset: one left-to-right pass;
+literal text is copied, `{{` / `}}` give a brace, `{name}` gives the supplied
+value **verbatim** (the value is never scanned again). Errors surface in the
+order in which the scan meets them. `fuel` is the template length. -/
+def formatAux (params : Dict Str Str) : Nat → Str → Except Err Str
+  | 0, [] => .ok []
+  | 0, _ :: _ => .error .other
+  | _, [] => .ok []
+  | fuel + 1, '{' :: '{' :: rest => (formatAux params fuel rest).map ('{' :: ·)
+  | fuel + 1, '}' :: '}' :: rest => (formatAux params fuel rest).map ('}' :: ·)
+  | _, '}' :: _ => .error .value                          -- Single '}' encountered
+  | fuel + 1, '{' :: rest =>
     match readField rest [] with
     | .error e => .error e
     | .ok (name, rest') =>
-      match parseTemplate fuel rest' [] with
+      match lookupField params name with
       | .error e => .error e
-      | .ok ps => .ok ((if acc = [] then [] else [Piece.text acc.reverse]) ++ Piece.field name :: ps)
-  | fuel + 1, c :: rest, acc => parseTemplate fuel rest (c :: acc)
+      | .ok v => (formatAux params fuel rest').map (v ++ ·)
+  | fuel + 1, c :: rest => (formatAux params fuel rest).map (c :: ·)
 
-def isDigits (s : Str) : Bool := s.all (fun c => '0' ≤ c ∧ c ≤ '9')
-
-/-- Render parsed pieces with the supplied values, verbatim. -/
-def renderPieces (params : Dict Str Str) : List Piece → Except Err Str
-  | [] => .ok []
-  | .text s :: r => (renderPieces params r).map (s ++ ·)
-  | .field name :: r =>
-    if isDigits name then .error .indexError      -- positional / auto-numbered field, no positional args
-    else
-      match Dict.get? params name with
-      | none => .error .keyError
-      | some v => (renderPieces params r).map (v ++ ·)
-
-/-- `template.format(**params)` on the modelled subset. -/
 def format (params : Dict Str Str) (template : Str) : Except Err Str :=
-  match parseTemplate (template.length + 1) template [] with
-  | .error e => .error e
-  | .ok ps => renderPieces params ps
+  formatAux params template.length template
 
 def isParamNameChar (c : Char) : Bool :=
   ('a' ≤ c ∧ c ≤ 'z') ∨ ('A' ≤ c ∧ c ≤ 'Z') ∨ ('0' ≤ c ∧ c ≤ '9') ∨ c = '_' ∨ c = '-'
